@@ -350,6 +350,9 @@ pub struct E1Params {
     /// layers < concrete_layers use every concrete key
     pub concrete_layers: usize,
     pub collect_family: bool,
+    /// only growth-path states holding at least this many elements are expanded (spot checks of large
+    /// states: the path below is walked, with audits, but not branched from)
+    pub from: usize,
 }
 
 /// E1: every history with at most `d` deviations spliced anywhere into the growth path up to `n`.
@@ -368,7 +371,9 @@ pub fn run_e1<W: World>(cfg: &Cfg, p: &E1Params, alpha: &Alphabet, lim: &Limits,
                 ex.seen.insert(k);
                 ex.out.states += 1;
                 ex.out.phases[w.phase() as usize & 3] += 1;
-                frontier.push(0);
+                if p.from == 0 {
+                    frontier.push(0);
+                }
                 let mut node = 0u32;
                 let mut ok = true;
                 while w.len() < p.n {
@@ -389,7 +394,9 @@ pub fn run_e1<W: World>(cfg: &Cfg, p: &E1Params, alpha: &Alphabet, lim: &Limits,
                     match ex.add_state(node, op, &w, 0) {
                         Some(nn) => {
                             node = nn;
-                            frontier.push(nn);
+                            if w.len() >= p.from {
+                                frontier.push(nn);
+                            }
                         }
                         None => break,
                     }
